@@ -70,6 +70,10 @@ func NewSnippet(b []byte, opts ...SnippetOption) *Snippet {
 	// Work out the start and end lines of the snippet
 	snippet.start = max(snippet.line-snippet.padding, 1)
 	snippet.end = min(snippet.line+snippet.padding, len(linesRaw)-1)
+	// A file that does not use "\n" as its line terminator has fewer lines
+	// here than the position of the error says: never slice out of bounds
+	snippet.end = max(min(snippet.end, len(linesHighlighted)), 0)
+	snippet.start = min(snippet.start, snippet.end+1)
 	snippet.linesRaw = linesRaw[snippet.start-1 : snippet.end]
 	snippet.linesHighlighted = linesHighlighted[snippet.start-1 : snippet.end]
 
